@@ -48,6 +48,8 @@ for _id in ("C01", "C02", "C03", "C04", "C05", "C06", "C07", "C08", "C09", "C10"
         P(f"seed {_id}_k (eleventh round)", _id, f"seeded/{_id}_k/patch.diff")
     if _os_path_exists(f"seeded/{_id}_l/patch.diff"):
         P(f"seed {_id}_l (twelfth round)", _id, f"seeded/{_id}_l/patch.diff")
+    if _os_path_exists(f"seeded/{_id}_m/patch.diff"):
+        P(f"seed {_id}_m (thirteenth round)", _id, f"seeded/{_id}_m/patch.diff")
 
 # ------------------------------------------------------------------ behaviour-preserving refactorings written by independent sub-agents
 # (refactors/r*/patch.diff, each passes the 79 tests): every check must stay silent (exit 0) on every one of them
